@@ -714,6 +714,13 @@ fn all_ops(len: usize, rich: bool) -> Vec<Op> {
         v.push(Op::Skip(n));
         v.push(Op::SkipBack(n));
     }
+    if rich {
+        // byte counts far beyond the length that are congruent to 1 modulo 2^8 / 2^16 / 2^32 (offsets are stored as u32)
+        for n in [(1usize << 8) + 1, (1 << 16) + 1, (1 << 32) + 1, usize::MAX] {
+            v.push(Op::Skip(n));
+            v.push(Op::SkipBack(n));
+        }
+    }
     for t in if rich { vec![0u8, 1, 5, 8, 9, 10, 12] } else { vec![0, 1, 12] } {
         v.push(Op::Parse(t));
     }
@@ -773,7 +780,7 @@ fn explore(ctx: &mut Ctx, c13: bool) {
             return;
         }
     }
-    ctx.exhaustive_part(&format!("{} originals (all strings <= {} symbols over {{a , ' ' é 1 -}} + 12 shaped ones) x bases {{0,7,2^31}} x all op sequences of depth 1-2 over {} op instances (every Parser method x 11 patterns, skip/skip_back 0..=6, 7 parse types)", origs.len(), 3, all_ops(6, true).len()));
+    ctx.exhaustive_part(&format!("{} originals (all strings <= {} symbols over {{a , ' ' é 1 -}} + 12 shaped ones) x bases {{0,7,2^31}} x all op sequences of depth 1-2 over {} op instances (every Parser method x 11 patterns, skip/skip_back 0..=6 and 2^8+1, 2^16+1, 2^32+1, usize::MAX, 7 parse types)", origs.len(), 3, all_ops(6, true).len()));
     let d3: Vec<&String> = origs.iter().filter(|s| s.chars().count() >= 3).step_by(if quick { 20 } else { 5 }).collect();
     for orig in &d3 {
         let ops = all_ops(orig.len(), false);
